@@ -16,9 +16,12 @@ func init() { register(&Check{ID: "C10", Race: true, Run: runC10}) }
 func genEvSession(ref core.CaseRef, r *rand.Rand) *evCase {
 	c := &evCase{CaseRef: ref, Kind: "session", Grouped: true}
 	c.SizeMs = pick(r, []int64{500, 1000, 1000, 5000}) // the timeout
-	c.MooMs = pick(r, []int64{0, 0, c.SizeMs / 2, 2 * c.SizeMs})
+	c.MooMs = pick(r, []int64{0, 0, c.SizeMs / 2, 2 * c.SizeMs, 3 * c.SizeMs})
 	nk := 1 + r.Intn(4)
-	c.Pattern = pick(r, []string{"inorder", "inorder", "jitter", "late"})
+	c.Pattern = pick(r, []string{"inorder", "inorder", "jitter", "late", "bridge"})
+	if c.Pattern == "bridge" && c.MooMs < 2*c.SizeMs {
+		c.MooMs = 2 * c.SizeMs
+	}
 	if c.MooMs == 0 && c.Pattern == "jitter" {
 		c.Pattern = "inorder"
 	}
@@ -49,6 +52,19 @@ func genEvSession(ref core.CaseRef, r *rand.Rand) *evCase {
 			}
 		}
 	}
+	// a gap of exactly one timeout, with another key's event carrying that very timestamp and arriving
+	// just before: the first session is then ready to expire when the boundary event is added, so the
+	// outcome would depend on the expiry goroutine's timing if "one timeout away" were handled inconsistently
+	if nk >= 2 {
+		var extra []ev
+		for i := 1; i < len(evs); i++ {
+			if evs[i].k == evs[i-1].k && evs[i].ts-evs[i-1].ts == c.SizeMs && r.Intn(2) == 0 {
+				other := plainKeys[(strings.Index("abcdef", evs[i].k)+1)%nk]
+				extra = append(extra, ev{evs[i].ts, other})
+			}
+		}
+		evs = append(extra, evs...) // stable sort keeps them in front of equal timestamps
+	}
 	sort.SliceStable(evs, func(i, j int) bool { return evs[i].ts < evs[j].ts })
 	var max int64
 	for i, e := range evs {
@@ -66,6 +82,26 @@ func genEvSession(ref core.CaseRef, r *rand.Rand) *evCase {
 		c.Rows = append(c.Rows, evRow{ID: i + 1, TS: t, K: e.k, V: r.Intn(100)})
 		if t > max {
 			max = t
+		}
+	}
+	if c.Pattern == "bridge" {
+		// arrival order: an event at t, then one more than a timeout EARLIER (still within tolerance: it opens
+		// a second session listed after the first), then an event within the timeout of both, which merges them
+		var rows []evRow
+		for i := 0; i < len(c.Rows); i++ {
+			rows = append(rows, c.Rows[i])
+			if r.Intn(4) == 0 {
+				t := c.Rows[i].TS
+				d := c.SizeMs + 1 + int64(r.Intn(int(c.SizeMs)-1))
+				if t-d > 0 && d <= c.MooMs {
+					k := c.Rows[i].K
+					rows = append(rows, evRow{TS: t - d, K: k, V: r.Intn(100)}, evRow{TS: t - d/2, K: k, V: r.Intn(100)})
+				}
+			}
+		}
+		c.Rows = rows
+		for i := range c.Rows {
+			c.Rows[i].ID = i + 1
 		}
 	}
 	if c.Pattern == "jitter" {
